@@ -15,7 +15,8 @@ import z3
 
 from .sym import Encoder, EncodeError, to_sym
 
-TIMEOUT_MS = int(os.environ.get("WGVC_TIMEOUT_MS", "20000"))
+TIMEOUT_MS = int(os.environ.get("WGVC_TIMEOUT_MS", "90000"))   # budget of the slow strategies
+FIRST_MS = int(os.environ.get("WGVC_FIRST_MS", "10000"))       # budget of the default strategy
 WORKERS = int(os.environ.get("WGVC_WORKERS", "16"))
 
 
@@ -46,31 +47,36 @@ class VC:
         return self.verdict == "sat"
 
 
-def build_smt2(vc: VC) -> str:
-    enc = Encoder()
+def build_smt2(vc: VC, congruence: bool = True) -> str:
+    """SMT-LIB text of  facts /\\ side axioms /\\ denominators non-zero /\\ not goal.
+    Uninterpreted applications are Ackermann-reduced to constants; with ``congruence`` the reduction
+    is exact (equisatisfiable), without it the query is weaker (unsat is still sound, sat is not)."""
+    enc = Encoder(ack=True)
     s = z3.Solver()
     facts = [enc.boolean(f) for f in vc.facts]
-    if vc.expect == "sat":
-        goal = None
-    else:
-        goal = enc.boolean(vc.goal)
+    goal = None if vc.expect == "sat" else enc.boolean(vc.goal)
     for f in facts:
         s.add(f)
+    if goal is not None:
+        s.add(z3.Not(goal))
     for ax in enc.side:
         s.add(ax)
     for d in enc.dens:
         if z3.is_rational_value(d):
             continue
         s.add(d != 0)
+    if congruence:
+        for c in enc.congruence():
+            s.add(c)
     vc.n_dens = len(enc.dens)
-    if goal is not None:
-        s.add(z3.Not(goal))
+    vc.meta["apps"] = enc.app_names()
+    vc.meta["index_consts"] = enc.index_constants()
     return s.to_smt2()
 
 
-def _run_z3_api(smt2: str, timeout_ms: int):
+def _run_z3_api(smt2: str, timeout_ms: int, tactic: str | None = None):
     t0 = time.time()
-    s = z3.Solver()
+    s = z3.Tactic(tactic).solver() if tactic else z3.Solver()
     s.set("timeout", timeout_ms)
     s.from_string(smt2)
     r = s.check()
@@ -84,6 +90,76 @@ def _run_z3_api(smt2: str, timeout_ms: int):
                 model[d.name()] = "?"
     reason = s.reason_unknown() if r == z3.unknown else ""
     return str(r), model, time.time() - t0, reason
+
+
+def _instantiate_search(smt2: str, tries: int, seed: int, index_consts=(), per_try_ms: int = 4000):
+    """Model search for a query the solver left open.  The plain real constants and the index-like
+    Ackermann constants are fixed to random small rationals that are consistent with the *linear* facts
+    (checked incrementally), then the solver finds the remaining values in a low-degree query.
+    Only a *sat* answer is used: the model found is a model of the original query."""
+    import random
+    rnd = random.Random(seed)
+    pool = ["1/10", "1/5", "1/4", "1/3", "2/5", "1/2", "3/5", "2/3", "3/4", "4/5", "9/10", "1", "11/10", "5/4",
+            "3/2", "2", "5/2", "3", "5", "10", "0", "-1/2", "-1", "-2"]
+    base = z3.Solver()
+    base.from_string(smt2)
+    assertions = list(base.assertions())
+    consts = {}
+
+    def walk(e, seen):
+        if e.get_id() in seen:
+            return
+        seen.add(e.get_id())
+        if z3.is_const(e) and e.decl().kind() == z3.Z3_OP_UNINTERPRETED and z3.is_real(e):
+            consts[str(e)] = e
+        for c in e.children():
+            walk(c, seen)
+    seen: set = set()
+    for a in assertions:
+        walk(a, seen)
+    idx = set(index_consts)
+    free = [c for n, c in sorted(consts.items()) if ((not n.startswith("app.") and "!" not in n) or n in idx) and n != "pi"]
+
+    def is_linear(e):
+        k = e.decl().kind()
+        if k in (z3.Z3_OP_MUL,):
+            nonconst = [c for c in e.children() if not z3.is_rational_value(c) and not z3.is_int_value(c)]
+            if len(nonconst) > 1:
+                return False
+        if k in (z3.Z3_OP_DIV, z3.Z3_OP_POWER, z3.Z3_OP_ITE, z3.Z3_OP_IDIV, z3.Z3_OP_MOD):
+            return False
+        return all(is_linear(c) for c in e.children())
+    linear = [a for a in assertions if is_linear(a)]
+    t0 = time.time()
+    for _ in range(tries):
+        lin = z3.Solver()
+        lin.set("timeout", 500)
+        for a in linear:
+            lin.add(a)
+        if lin.check() == z3.unsat:
+            return "unknown", {}, time.time() - t0
+        order = list(free)
+        rnd.shuffle(order)
+        chosen = []
+        for c in order:
+            for _k in range(6):
+                v = z3.RealVal(rnd.choice(pool))
+                lin.push()
+                lin.add(c == v)
+                if lin.check() == z3.sat:
+                    chosen.append((c, v))
+                    break
+                lin.pop()
+        s = z3.Solver()
+        s.set("timeout", per_try_ms)
+        for a in assertions:
+            s.add(a)
+        for c, v in chosen:
+            s.add(c == v)
+        if s.check() == z3.sat:
+            m = s.model()
+            return "sat", {d.name(): str(m[d]) for d in m.decls()}, time.time() - t0
+    return "unknown", {}, time.time() - t0
 
 
 def _run_cli(cmd: list, smt2: str, timeout_s: float):
@@ -105,26 +181,58 @@ def _run_cli(cmd: list, smt2: str, timeout_s: float):
 
 
 def _worker(args):
-    name, smt2, timeout_ms, second_opinion = args
+    name, fast, smt2, timeout_ms, second_opinion, index_consts = args
+    secs0 = 0.0
+    if fast is not None:
+        # weaker query (no congruence): only an unsat answer is used
+        try:
+            verdict, _, secs0, _ = _run_z3_api(fast, min(timeout_ms, 5000))
+            if verdict == "unsat" and not second_opinion:
+                return name, "unsat", "z3-5.1", {}, secs0, "without-congruence"
+        except z3.Z3Exception:
+            pass
     try:
-        verdict, model, secs, reason = _run_z3_api(smt2, timeout_ms)
+        verdict, model, secs, reason = _run_z3_api(smt2, min(timeout_ms, FIRST_MS))
     except z3.Z3Exception as exc:
         return name, "error", "z3-5.1", {}, 0.0, f"z3 exception: {exc}"
+    secs += secs0
     backend = "z3-5.1"
     detail = reason
+    if verdict == "unknown":
+        import zlib
+        v3, m3, s3 = _instantiate_search(smt2, 25, zlib.crc32(name.encode()) & 0xffff, index_consts)
+        secs += s3
+        if v3 == "sat":
+            verdict, model, backend, detail = "sat", m3, "z3-5.1+instantiation", ""
+    if verdict == "unknown":
+        # second strategy of the same solver: the nlsat tactic (complete for QF_NRA, good at finding models)
+        try:
+            v1, m1, s1, r1 = _run_z3_api(smt2, timeout_ms, tactic="qfnra-nlsat")
+            secs += s1
+            if v1 in ("sat", "unsat"):
+                verdict, model, backend, detail = v1, m1, "z3-5.1/nlsat", ""
+        except z3.Z3Exception:
+            pass
     if verdict == "unknown" or second_opinion:
         others = []
-        for label, cmd in (("cvc5", ["/usr/bin/cvc5", "--nl-cov", f"--tlimit={timeout_ms}"]),
-                           ("z3-4.8", ["/usr/bin/z3", f"-T:{max(1, timeout_ms // 1000)}"])):
+        cli_ms = min(timeout_ms, 30000)
+        for label, cmd in (("cvc5", ["/usr/bin/cvc5", f"--tlimit={cli_ms}"]),
+                           ("z3-4.8", ["/usr/bin/z3", f"-T:{max(1, cli_ms // 1000)}"])):
             if not os.path.exists(cmd[0]):
                 continue
             text = smt2 if label != "cvc5" else "(set-logic ALL)\n" + smt2
-            v2, s2 = _run_cli(cmd, text, timeout_ms / 1000)
+            v2, s2 = _run_cli(cmd, text, cli_ms / 1000)
             others.append((label, v2, s2))
             if verdict == "unknown" and v2 in ("sat", "unsat"):
                 verdict, backend, secs = v2, label, secs + s2
                 if not second_opinion:
                     break
+        if verdict == "unknown":
+            import zlib
+            v3, m3, s3 = _instantiate_search(smt2, 40, zlib.crc32(name.encode()) & 0xffff, index_consts)
+            secs += s3
+            if v3 == "sat":
+                verdict, model, backend = "sat", m3, "z3-5.1+instantiation"
         if second_opinion:
             decided = [(l, v) for l, v, _ in others if v in ("sat", "unsat")]
             if any(v != verdict for _, v in decided) and verdict in ("sat", "unsat"):
@@ -143,7 +251,10 @@ def discharge(vcs: list, second_opinion: bool = False, timeout_ms: int | None = 
         except EncodeError as exc:
             vc.verdict, vc.detail = "unknown", f"encode: {exc}"
             continue
-        jobs.append((vc.name, vc.smt2, tmo, second_opinion))
+        fast = None
+        if vc.expect == "valid" and vc.meta.get("apps"):
+            fast = build_smt2(vc, congruence=False)
+        jobs.append((vc.name, fast, vc.smt2, tmo, second_opinion, vc.meta.get("index_consts", [])))
     byname = {vc.name: vc for vc in vcs}
     if len(byname) != len(vcs):
         seen = set()
@@ -160,6 +271,8 @@ def discharge(vcs: list, second_opinion: bool = False, timeout_ms: int | None = 
             results = list(ex.map(_worker, jobs, chunksize=1))
     for name, verdict, backend, model, secs, detail in results:
         vc = byname[name]
+        names = vc.meta.get("apps", {})
+        model = {names.get(k, k): v for k, v in model.items()}
         vc.verdict, vc.backend, vc.model, vc.seconds, vc.detail = verdict, backend, model, secs, detail
 
 
@@ -172,7 +285,7 @@ def quick_sat(facts: list, timeout_ms: int = 1500) -> str:
     if key in _quick_cache:
         return _quick_cache[key]
     try:
-        enc = Encoder()
+        enc = Encoder(ack=True)
         s = z3.Solver()
         s.set("timeout", timeout_ms)
         for f in facts:
@@ -182,6 +295,8 @@ def quick_sat(facts: list, timeout_ms: int = 1500) -> str:
         for d in enc.dens:
             if not z3.is_rational_value(d):
                 s.add(d != 0)
+        for c in enc.congruence():
+            s.add(c)
         r = str(s.check())
     except EncodeError:
         r = "unknown"
